@@ -38,6 +38,52 @@ fn unpack(px: &[[f32; 3]], n: usize) -> Vec<f32> {
     (0..n).map(|i| px[i / 3][i % 3]).collect()
 }
 
+/// one checked value per pixel (component i % 3); the two other components ("mates") are arbitrary
+/// finite values, mostly outside [0,1]. The property is stated per component, so mates must not
+/// influence the checked component.
+fn pack_mates(vals: &[f32], seed: u64) -> (Vec<[f32; 3]>, usize) {
+    let mut e = Expand(seed ^ 0x3A7E5);
+    let specials = [-1.0f32, -0.25, -1e-3, 1.0 + 1e-3, 1.25, 2.0, 10.0, -10.0, 0.0, 1.0];
+    let px = vals
+        .iter()
+        .enumerate()
+        .map(|(i, v)| {
+            let mut p = [0f32; 3];
+            for (j, c) in p.iter_mut().enumerate() {
+                *c = if j == i % 3 {
+                    *v
+                } else if e.below(2) == 0 {
+                    *e.pick(&specials)
+                } else {
+                    e.range_f64(-1.0, 3.0) as f32
+                };
+            }
+            p
+        })
+        .collect::<Vec<_>>();
+    let n = px.len();
+    (px, n)
+}
+fn unpack_mates(px: &[[f32; 3]]) -> Vec<f32> {
+    px.iter().enumerate().map(|(i, p)| p[i % 3]).collect()
+}
+
+pub fn lib_apply_mates(t: TC, d: Dir, vals: &[f32], seed: u64) -> Result<Vec<f32>, String> {
+    let (px, n) = pack_mates(vals, seed);
+    match d {
+        Dir::ToLinear => {
+            let rgb = Rgb::new(px, n, 1, t, CP::BT709).map_err(|e| format!("Rgb::new: {e:?}"))?;
+            let l = LinearRgb::try_from(rgb).map_err(|e| format!("to_linear({}) failed: {e:?}", tc_name(t)))?;
+            Ok(unpack_mates(l.data()))
+        }
+        Dir::ToGamma => {
+            let l = LinearRgb::new(px, n, 1).map_err(|e| format!("LinearRgb::new: {e:?}"))?;
+            let rgb = Rgb::try_from((l, t, CP::BT709)).map_err(|e| format!("to_gamma({}) failed: {e:?}", tc_name(t)))?;
+            Ok(unpack_mates(rgb.data()))
+        }
+    }
+}
+
 pub fn lib_to_linear(t: TC, vals: &[f32]) -> Result<Vec<f32>, String> {
     let (px, n) = pack(vals);
     let rgb = Rgb::new(px, n, 1, t, CP::BT709).map_err(|e| format!("Rgb::new: {e:?}"))?;
@@ -126,6 +172,8 @@ pub struct Case {
     pub t: TC,
     pub dir: Dir,
     pub vals: Vals,
+    /// Some(seed): one checked value per pixel, the other two components are out-of-range "mates"
+    pub mates: Option<u64>,
 }
 #[derive(Debug, Clone)]
 pub enum Vals {
@@ -135,12 +183,48 @@ pub enum Vals {
 impl Case {
     pub fn values(&self) -> Vec<f32> {
         match &self.vals {
-            Vals::Seeded { stratum, seed, n } => expand_unit(*stratum, *seed, *n),
+            Vals::Seeded { stratum, seed, n } => match stratum % 8 {
+                6 => {
+                    // feedback chain: each value is the library's own result for the previous one, so that
+                    // neighbouring components in memory are (input, previous output) pairs
+                    let mut e = Expand(*seed);
+                    let mut v = Vec::with_capacity(*n);
+                    let mut x = e.unit() as f32;
+                    for i in 0..*n {
+                        v.push(x);
+                        let y = lib_apply(self.t, self.dir, &[x]).ok().map(|o| o[0]).unwrap_or(f32::NAN);
+                        x = if y.is_finite() && (0.0..=1.0).contains(&y) && i % 16 != 15 { y } else { e.unit() as f32 };
+                    }
+                    v
+                }
+                7 => {
+                    // runs of repeated values
+                    let mut e = Expand(*seed);
+                    let mut v = Vec::with_capacity(*n);
+                    while v.len() < *n {
+                        let x = if e.below(3) == 0 { *e.pick(&thresholds()) } else { e.unit() as f32 };
+                        for _ in 0..=e.below(4) {
+                            if v.len() < *n {
+                                v.push(x.clamp(0.0, 1.0));
+                            }
+                        }
+                    }
+                    v
+                }
+                _ => expand_unit(*stratum, *seed, *n),
+            },
             Vals::Explicit(v) => v.clone(),
+        }
+    }
+    pub fn apply(&self, vals: &[f32]) -> Result<Vec<f32>, String> {
+        match self.mates {
+            Some(s) => lib_apply_mates(self.t, self.dir, vals, s),
+            None => lib_apply(self.t, self.dir, vals),
         }
     }
     pub fn json_with(&self, prop: &str, vals: &[f32]) -> Value {
         json!({"prop": prop, "transfer": tc_name(self.t), "dir": if self.dir == Dir::ToLinear {"to_linear"} else {"to_gamma"},
+               "mates": self.mates.map(|m| m.to_string()),
                "values": vals.iter().map(|v| f2j(*v)).collect::<Vec<_>>()})
     }
     pub fn from_json(v: &Value) -> Option<Case> {
@@ -148,16 +232,18 @@ impl Case {
             t: tc_from_name(v.get("transfer")?.as_str()?)?,
             dir: if v.get("dir")?.as_str()? == "to_linear" { Dir::ToLinear } else { Dir::ToGamma },
             vals: Vals::Explicit(v.get("values")?.as_array()?.iter().filter_map(j2f).collect()),
+            mates: v.get("mates").and_then(|m| m.as_str()).and_then(|m| m.parse().ok()),
         })
     }
 }
 
 pub fn strategy() -> BoxedStrategy<Case> {
-    (sup_transfer(), any::<bool>(), 0u8..6, any::<u64>(), 1usize..=768)
-        .prop_map(|(t, d, stratum, seed, n)| Case {
+    (sup_transfer(), any::<bool>(), 0u8..8, any::<u64>(), 1usize..=768, prop::bool::weighted(0.25))
+        .prop_map(|(t, d, stratum, seed, n, mates)| Case {
             t,
             dir: if d { Dir::ToLinear } else { Dir::ToGamma },
-            vals: Vals::Seeded { stratum, seed, n },
+            vals: Vals::Seeded { stratum, seed, n: if stratum % 8 == 6 { n.min(96) } else { n } },
+            mates: if mates { Some(seed) } else { None },
         })
         .boxed()
 }
@@ -178,7 +264,7 @@ pub fn check_named(prop: &str, case: &Case, st: &mut Stats) -> Result<(), Violat
     let (t, d) = (case.t, case.dir);
     let sig = format!("{prop}:curve:{}:{}", tc_name(t), if d == Dir::ToLinear { "to_linear" } else { "to_gamma" });
     let fail = |msg: String, vals: &[f32]| Violation { signature: sig.clone(), message: msg, case: case.json_with(prop, vals) };
-    let got = match catch(|| lib_apply(t, d, &vals)) {
+    let got = match catch(|| case.apply(&vals)) {
         Err(p) => return Err(fail(format!("panic: {p}"), &vals)),
         Ok(Err(e)) => return Err(fail(e, &vals)),
         Ok(Ok(g)) => g,
@@ -204,6 +290,16 @@ pub fn check_named(prop: &str, case: &Case, st: &mut Stats) -> Result<(), Violat
                         Err(_) => false,
                     }
                 };
+                if !bad(*x) {
+                    // correct on its own: the failure depends on the neighbouring values of the image
+                    let i = vals.iter().position(|v| v.to_bits() == x.to_bits()).unwrap_or(0);
+                    let lo = i.saturating_sub(3);
+                    return Err(Violation {
+                        signature: sig.clone(),
+                        message: format!("{} {:?}: x={:e} converts correctly alone but gives {:e} inside this image (formula {:e}); neighbouring values {:?}; pixel mates: {:?}", tc_name(t), d, x, g, want, &vals[lo..(i + 2).min(vals.len())], case.mates),
+                        case: case.json_with(prop, &vals),
+                    });
+                }
                 let small = minimize_f32(*x, 0.0, 1.0, bad);
                 if small != *x {
                     let o = lib_apply(t, d, &[small]).map(|o| o[0]).unwrap_or(f32::NAN);
@@ -242,7 +338,10 @@ pub fn check_named(prop: &str, case: &Case, st: &mut Stats) -> Result<(), Violat
     st.class(&format!("curve_{}", tc_name(t)), 1);
     st.class(if d == Dir::ToLinear { "dir_to_linear" } else { "dir_to_gamma" }, 1);
     if let Vals::Seeded { stratum, .. } = case.vals {
-        st.class(&format!("stratum_{}", stratum % 6), 1);
+        st.class(&format!("stratum_{}", stratum % 8), 1);
+        if case.mates.is_some() {
+            st.class("with_out_of_range_pixel_mates", 1);
+        }
     }
     if nontrivial {
         let bits: Vec<u32> = vals.iter().map(|v| v.to_bits()).collect();
@@ -281,7 +380,7 @@ pub fn sweep(ctx: &Ctx, st: &mut Stats, prop: &'static str, stride: u64, chk: fn
             if b + 1 == nblocks {
                 vals.push(1.0);
             }
-            let case = Case { t, dir: d, vals: Vals::Explicit(vals) };
+            let case = Case { t, dir: d, vals: Vals::Explicit(vals), mates: None };
             let mut local = Stats::new();
             local.sample_budget = 0;
             if let Err(v) = chk(prop, &case, &mut local) {
@@ -319,4 +418,4 @@ pub fn replay(v: &Value) -> Result<(), String> {
     check(&case, &mut Stats::new()).map_err(|v| v.message)
 }
 
-pub const RULE: &str = "cases = (curve in 14 supported, direction, batch of 1..768 values of [0,1] from 6 strata: uniform value, uniform bit pattern, +-64 ulp around every curve threshold, powers of two +-4 ulp, subnormal/tiny, dense below 1) generated by proptest, plus a strided (quick) or complete (thorough) enumeration of all f32 in [0,1] in blocks of 65536; each value compared with the f64 defining formula (tol 2.5e-4; PQ to_gamma 5.7e-4; builds without fastmath 5e-5), Linear and BT.1886 aliases compared bitwise; non-trivial = batch containing a value strictly inside (0,1); distinct = by hash of (curve, direction, value bits)";
+pub const RULE: &str = "cases = (curve in 14 supported, direction, batch of 1..768 values of [0,1] from 8 strata: uniform value, uniform bit pattern, +-64 ulp around every curve threshold, powers of two +-4 ulp, subnormal/tiny, dense below 1, feedback chain (each value is the library's result for the previous one), runs of repeated values; in a quarter of the cases each checked value sits in a pixel whose other two components are out-of-range mates) generated by proptest, plus a strided (quick) or complete (thorough) enumeration of all f32 in [0,1] in blocks of 65536; each value compared with the f64 defining formula (tol 2.5e-4; PQ to_gamma 5.7e-4; builds without fastmath 5e-5), Linear and BT.1886 aliases compared bitwise; non-trivial = batch containing a value strictly inside (0,1); distinct = by hash of (curve, direction, value bits)";
